@@ -1,7 +1,7 @@
 import TsV.Lemmas.C12_Common
 /-!
 # C12, Scala: the unsigned aliases are used by `format_type` at any depth, and the alias block is
-driven by a scan (`uses_unsigned`) that descends to any depth as well (since the `fix:` commit c7871b1;
+driven by a scan (`uses_unsigned`) that descends to any depth as well (since the `fix:` commit 37c1b68;
 before, the scan looked one level deep and not under arrays / slices)
 -/
 namespace TsV.C12L.Scala
